@@ -139,16 +139,18 @@ SPEC = {
                  "C12_heap_refines_priority_multiset", "C12_heap_depends_only_on_sign",
                  "C12_queue_bounded_fifo", "C12_queue_ring_invariant", "C12_ring_refines_window", "C12_ring_toSlice_last_min_n_cap",
                  "C12_stack_lifo"],
-    "trusted_base": ["hand-written models Hive/Model/C12a*.lean of ds/shrinkingmap, ds/randommap, ds/generalheap + container/heap, ds/priorityqueue, runtime/timed/priority_queue.go, ds/queue, ds/ringbuffer, ds/stack, tied by differential execution with the white-box state compared after every operation (harness/c12) and by regenerated skeleton / source / type obligations (harness/c12/skel, Hive/Props/C12aSkel.lean)",
+    "trusted_base": ["hand-written models Hive/Model/C12a*.lean of ds/shrinkingmap, ds/randommap (incl. the memory-level model C12aOwn of the key slice and of the slices Keys() hands out), ds/generalheap + container/heap (comparator abstract: any CompareTo whose sign is a total preorder), ds/priorityqueue, runtime/timed/priority_queue.go, ds/queue, ds/ringbuffer, ds/stack, tied by differential execution with the white-box state compared after every operation (harness/c12) and by regenerated skeleton / source / type obligations (harness/c12/skel, Hive/Props/C12aSkel.lean)",
                      "sync.RWMutex excludes (lock bit of the protocol model Cb.sys); go/ast extractor harness/c12/skel",
                      "Go toolchain, compiled Lean driver"],
     "modelled": ["Go map iteration order is not modelled: iteration results are compared sorted",
                  "math/rand is an explicit oracle argument in the model; the tie compares membership, count and distinctness of random picks",
-                 "float32 rounding of the shrink ratio is not modelled (ratio = fraction of naturals)",
+                 "float32 rounding of the shrink ratio is not modelled (ratio = exact fraction; NaN / +Inf / -Inf are modelled by their effect on shouldShrink, C12_shrink_rule_ieee_specials)",
+                 "the Priority / Key type parameter of the heaps is an abstract comparator (every CompareTo whose sign is a total preorder); a CompareTo that wraps around (a - b on keys more than 2^63 apart) is outside",
+                 "aliasing: answers are values in the pure models; the memory-level model Own (RandomMap.keys and the slices Keys() returns, callers writing into them) justifies that for RandomMap, the retained-answer / scribble oracles test it for every container that hands out collections",
                  "mutexes: ShrinkingMap's callback-taking operations have a lock protocol model (Cb.sys, any number of callers) tied by forced callback-window schedules; the other containers are modelled as atomicity of each method (sequential histories), their lock structure is pinned by skeleton obligations",
                  "capacity 0 of Queue/RingBuffer (panics) is outside the property"],
     "manifest": {
-        "text": "Part A of C12: refinement theorems (every history, every option setting) for ShrinkingMap, RandomMap, generalheap/PriorityQueue/timed.PriorityQueue, Queue, RingBuffer, Stack against their abstract models; atomicity of ShrinkingMap's callback-taking operations for any number of callers (lock protocol invariant, linearizability check of forced callback-window schedules); line-by-line differential tie with the white-box state after every operation, retained-answer / aliasing oracles, an in-Go abstract-model oracle per container, and 144 regenerated skeleton / source / type obligations.",
+        "text": "Part A of C12: refinement theorems (every history, every option setting) for ShrinkingMap, RandomMap, generalheap/PriorityQueue/timed.PriorityQueue, Queue, RingBuffer, Stack against their abstract models; atomicity of ShrinkingMap's callback-taking operations for any number of callers (lock protocol invariant, linearizability check of forced callback-window schedules); the heap theorems hold for every legal comparator of the Priority / Key type parameter (abstract Heap.Cmp; C12_heap_depends_only_on_sign) and the tie instantiates it with six Go types (-1/0/1, a-b, +-2^40, MinInt/MaxInt, -3/5, -2/1); a memory-level model of RandomMap's key slice with callers writing into the slices Keys() returned (C12_rmap_keys_owned) tied by its own stream; line-by-line differential tie with the white-box state after every operation, retained-answer / aliasing oracles, an in-Go abstract-model oracle per container, and 144 regenerated skeleton / source / type obligations.",
         "note": "Trusted: Lean kernel; hand-written models (tie = differential execution).",
         "technique": "Lean 4 refinement / invariant proofs by induction over operation histories + differential correspondence",
     },
